@@ -5,6 +5,7 @@ import SecsModel.Proofs.C03Tab0
 import SecsModel.Proofs.C03Tab1
 import SecsModel.Proofs.C03Tab2
 import SecsModel.Proofs.C03Tab3
+import SecsModel.Proofs.C03Tab4
 /-!
 # C03 — every catalogued stream/function is found by its S/F numbers; pairing, flags and YAML agree
 
@@ -32,7 +33,7 @@ theorem rowOk_parts {x : Fn} (h : rowOk py yaml x = true) :
   simpa [rowOk, and_assoc] using h
 
 /-- no two catalogued classes carry the same (stream, function) -/
-theorem keys_unique : (py.map key).Nodup := by decide +kernel
+theorem keys_unique : (py.map key).Nodup := distinctKeys_nodup _ pyKeysDistinct
 
 /-- **Lookup is total and exact on the catalogue**: `StreamsFunctions.function(s, f)` with the numbers of a catalogued class
 returns that class (never `None`, never the duplicate error) -/
@@ -89,7 +90,7 @@ theorem witness_s2f49_reply_flags :
 YAML row has the same five flags and a token-equal structure text -/
 theorem yaml_agrees :
     (∀ x ∈ py, ∃ y ∈ yaml, key y = key x ∧ rowsAgree x y = true) ∧ (∀ y ∈ yaml, key y ∈ py.map key) ∧ (yaml.map key).Nodup := by
-  refine ⟨?_, ?_, by decide +kernel⟩
+  refine ⟨?_, ?_, distinctKeys_nodup _ yamlKeysDistinct⟩
   · intro x hx
     have h := (rowOk_parts (rows_ok x hx)).2.2.2
     unfold yamlRowAgrees at h
@@ -123,6 +124,11 @@ theorem data_items_wellformed :
     (∀ i ∈ items, i.cls = i.name) ∧ (items.map (·.cls)).Nodup
     ∧ (∀ i ∈ items, i.cls ∈ moduleClasses) ∧ (∀ c ∈ moduleClasses, c ∈ items.map (·.cls))
     ∧ (∀ c ∈ moduleClasses, c ∈ moduleAttrs)
-    ∧ (∀ c ∈ moduleClasses, Model.Sfdl.upper c = c ∧ c ≠ Model.Sfdl.capL) := by decide +kernel
+    ∧ (∀ c ∈ moduleClasses, Model.Sfdl.upper c = c ∧ c ≠ Model.Sfdl.capL) := by
+  have h := dataItems_ok
+  simp only [dataItemsOk, Bool.and_eq_true, List.all_eq_true, beq_iff_eq, List.contains_iff_mem, bne_iff_ne, ne_eq] at h
+  obtain ⟨⟨h1, h2⟩, h3⟩ := h
+  exact ⟨fun i hi => (h1 i hi).1, distinctNames_nodup _ h2, fun i hi => (h1 i hi).2, fun c hc => (h3 c hc).1.1.1,
+    fun c hc => (h3 c hc).1.1.2, fun c hc => ⟨(h3 c hc).1.2, (h3 c hc).2⟩⟩
 
 end SecsModel.Props.C03
